@@ -35,7 +35,8 @@ ASSUMPTIONS = ["models death of the process (kernel state survives), not power l
                "truncate_raggedarray returns the right subarrays and counts as legitimate (recorded as benign_orphan_tail)",
                "an exception raised when the metadata are accessed counts as 'raises' for metadata scenarios"]
 EXHAUSTIVE = "all distinct line-granularity on-disk states of every enumerated scenario"
-OPS = ['append', 'iterappend3', 'iterappend-fail1', 'trunc-k', 'trunc-0', 'meta-first', 'meta-change', 'meta-last']
+OPS = ['append', 'iterappend3', 'iterappend-fail1', 'trunc-k', 'trunc-0', 'meta-first', 'meta-change', 'meta-last', 'meta-update-mixed', 'meta-update-pairs',
+       'append-darr']
 MUST_HIT = ['kind:array1d', 'kind:arraynd', 'kind:ragged0', 'kind:ragged1', 'start:empty', 'start:nonempty', 'torn:emptied', 'torn:append-half',
             'torn:prefix', 'opened:legit', 'opened:raised', 'realkill:agrees'] + ['op:' + o for o in OPS]
 
@@ -55,6 +56,9 @@ def scenario_grid():
                 if start == 'empty' and op in ('trunc-k', 'trunc-0'):
                     continue
                 yield {'kind': kind, 'dt': dt, 'start': start, 'op': op, 'seed': 3, 'n0': 4, 'lens': [2, 1, 3]}
+    # an operand of more than 10 MiB that is itself a Darr array, appended to an empty and to a non-empty array
+    for start in ('empty', 'nonempty'):
+        yield {'kind': 'array1d', 'dt': {'t': 'float64', 'bo': '<'}, 'start': start, 'op': 'append-darr', 'seed': 5, 'n0': 1, 'lens': [1, 1, 1], 'big': 350000}
 
 
 @st.composite
@@ -80,7 +84,7 @@ def build(spec, path):
     kind, dt, tail = spec['kind'], dt_of(spec['dt']), _tail(spec['kind'])
     ragged = kind.startswith('ragged')
     n0 = spec['n0'] if spec['start'] == 'nonempty' else 0
-    md0 = {'k0': 'v0', 'n': [1, 2]} if spec['op'] in ('meta-change', 'meta-last') else None
+    md0 = {'k0': 'v0', 'n': [1, 2]} if spec['op'] in ('meta-change', 'meta-last', 'meta-update-mixed', 'meta-update-pairs') else None
     if spec['op'] == 'meta-last':
         md0 = {'k0': 'v0'}
     chunks = [_vals(dt, (ln,) + tail, spec['seed'] + 10 + i) for i, ln in enumerate(spec['lens'])]
@@ -138,6 +142,34 @@ def build(spec, path):
     elif op == 'meta-last':
         legit = [dict(md0), {}]
         fn = lambda: a.metadata.pop('k0')
+    elif op == 'meta-update-mixed':
+        # one call that carries a dict AND keyword arguments: still one change (before or after, nothing in between)
+        legit = [dict(md0), dict(md0, k0='changed', extra=1.5, rig='B', n=None)]
+        fn = lambda: a.metadata.update({'k0': 'changed', 'extra': 1.5}, rig='B', n=None)
+    elif op == 'meta-update-pairs':
+        legit = [dict(md0), dict(md0, k0='changed', z=[1])]
+        fn = lambda: a.metadata.update([('k0', 'changed'), ('z', [1])])
+    elif op == 'append-darr':
+        # the operand of ONE append is itself a Darr array (all of it is one appended chunk)
+        if ragged:
+            legit = [cat(0), cat(1)]
+            fn = lambda: a.append(chunks[0])
+        else:
+            big = spec.get('big')
+            rows = _vals(dt, (4, big), spec['seed'] + 50) if big else (np.concatenate(chunks, axis=0).astype(dt) if sum(spec['lens']) else chunks[0])   # (concatenate returns native byte order)
+            operand = darr.asarray(path + '_operand', rows)
+            if big:
+                import shutil
+                a = None
+                shutil.rmtree(path)
+                first = _vals(dt, (n0, big), spec['seed'])
+                a = darr.asarray(path, first, accessmode='r+')
+                model0 = first
+                legit = [first, np.concatenate([first, rows], axis=0).astype(dt)]
+            else:
+                legit = [cat(0), np.frombuffer(b''.join(x.tobytes() for x in [model0, rows]), dtype=dt).reshape((-1,) + tail)]
+            fn = lambda: a.append(operand)
+            return a, fn, legit, legit[0]
     else:
         raise ValueError(op)
     return a, fn, legit, (cat(0) if not op.startswith('meta') else None)
@@ -341,7 +373,8 @@ def task_random(ctx, col, shard, n):
 
 def task_realkill(ctx, col, shard):
     """Cross-validation: kill a forked child at the n-th state change and compare the surviving directory with state n."""
-    specs = [s for i, s in enumerate(scenario_grid()) if i % NSHARDS == shard][:ctx.pick(2, 6)]
+    base = [s for s in scenario_grid() if s['op'] not in ('meta-update-mixed', 'meta-update-pairs', 'append-darr')]     # (ops build_on knows)
+    specs = [s for i, s in enumerate(base) if i % NSHARDS == shard][:ctx.pick(2, 6)]
     for spec in specs:
         with ctx.scratch() as d:
             path = os.path.join(d, 'x.darr')
